@@ -34,6 +34,9 @@ type Page struct {
 	W     int     `json:"w"`
 	F     []Frag  `json:"f"`
 	Lines []LLine `json:"lines,omitempty"` // only on character-level pages
+	// Broken (extractor-level cases, extract.go): the page's content stream is malformed in
+	// this way and the page cannot be read (pdfw.go); its fragments are never seen.
+	Broken string `json:"broken,omitempty"`
 }
 
 type Doc struct {
